@@ -30,14 +30,16 @@ def configs(tier):
 
 def run(ctx):
     for r, t in [("C16-R1", "add(): += into the occupied slot, insert + mask bit when vacant, always for the entity's own index"),
-                 ("C16-R2", "collect / extend feed every pair to add()"), ("C16-R3", "join flavours fetch from the set's own mask and storage; consuming join removes")]:
+                 ("C16-R2", "collect / extend feed every pair to add()"), ("C16-R3", "join flavours fetch from the set's own mask and storage; consuming join removes"),
+                 ("C16-R4", "join wrappers are repeat-gettable only if every member is (so the consuming join stays once-only inside maybe() / tuples)")]:
         ctx.rule(r, t)
     for cfg in configs(ctx.tier):
         facts = ctx.xfacts(cfg)
         r1(ctx, facts)
         r2(ctx, facts)
         r3(ctx, facts)
-    witness.run_set(ctx, "C16", ["w4_changeset_by_value_not_repeatable"])
+        r4(ctx, facts)
+    witness.run_set(ctx, "C16", ["w4_changeset_by_value_not_repeatable", "w4_maybe_changeset_by_value_not_repeatable", "w4_tuple_changeset_by_value_not_repeatable"])
 
 
 def r1(ctx, facts):
@@ -145,3 +147,33 @@ def r3(ctx, facts):
             ctx.ob("C16-R3", "%s %s::get %s" % (st, tname, "removes the amount it yields" if consuming else "borrows the amount of the index"), okg, g.loc(),
                    "" if okg else "get() calls %s" % sorted(names))
     ctx.floor("C16-R3", "ChangeSet join impls", n, 6)
+
+
+RLG = "join::lend_join::RepeatableLendGet"
+
+
+def r4(ctx, facts):
+    """P6: every impl of RepeatableLendGet whose self type is built from type parameters (MaybeJoin<T>, the tuples) requires
+    RepeatableLendGet of each of them.  Otherwise `change_set.maybe()` - or a tuple containing the by-value change set - could be asked
+    for the same entity twice, and the consuming get() would remove a second time through a stale dense index."""
+    import re
+    n = 0
+    for im in facts.impls_of(RLG):
+        st = im["self_ty"]
+        params = []
+        if st.startswith("(") and st.endswith(")"):
+            params = [x.strip() for x in st[1:-1].split(",") if x.strip()]
+        else:
+            m = re.match(r"^[\w:]+<(.*)>$", st)
+            if m:
+                params = [x.strip() for x in m.group(1).split(",")]
+        params = [x for x in params if re.match(r"^[A-Z][A-Za-z0-9]*$", x)]      # bare type parameters only
+        # members = parameters that are required to be joinable at all
+        members = [x for x in params if any(pr.startswith(x + ": join::") for pr in im["preds"])]
+        if not members:
+            continue
+        n += 1
+        missing = [x for x in members if (x + ": " + RLG) not in im["preds"]]
+        ctx.ob("C16-R4", "RepeatableLendGet for %s requires it of every member" % st, not missing, "%s:%d" % (im["file"], im["line"]),
+               "" if not missing else "member(s) %s need not be RepeatableLendGet: a consuming join wrapped in this type can be asked for the same entity twice" % missing)
+    ctx.floor("C16-R4", "RepeatableLendGet impls over join members", n, 10)
